@@ -1,5 +1,5 @@
 # Table consumed by mkmanifest.py.  `check(id, technique, text, note, design_ref)`.
-HOOK_COMMITS = []
+HOOK_COMMITS = ["a20fa5a"]
 
 NOT_YET.update({
 })
@@ -117,3 +117,14 @@ check("C17",
       "(gaps, more than nine per day, attic) and attempt sequences; freshness checked directly on the real output.",
       "Trusted: Lean kernel; bash/find/sed/sort for ksh and BSD userland; date(1); harness.",
       "DESIGN.md#c17")
+
+check("C04",
+      "Lean 4 proof: the property as an executable trace checker, proved to accept every trace of the orchestrator model for all schedules, skip sets, ncpu >= 1, exit codes and completion timings; real canvas runs validated by the same checker",
+      "Proof: Orch.run models util.sh robsd() (ordered loop, job list, queue-full wait via robsd-wait, barrier, set -e, end) against an adversarial oracle (exit "
+      "codes; which jobs each wait reaps). Orch.check states the property on a trace; run_accepted proves every model trace passes it (synchronous start and end only "
+      "with nothing running, never more than ncpu running, skipped steps never start, nothing after a synchronous failure); run_result characterises failure exactly "
+      "(first failing non-skipped synchronous step; a failing parallel step never stops the run). Real canvas -d runs (real robsd-wait via a kqueue shim, "
+      "ROBSD_VERIF_NCPU 1-3, adversarial sleeps) are checked against the property directly and by Orch.accepts.",
+      "Partial in one respect: the quantifier over all completion timings is discharged on the model; the implementation is sampled. Trusted: Lean kernel; bash "
+      "for ksh and the shims; kqueue shim; hook ROBSD_VERIF_NCPU; harness.",
+      "DESIGN.md#c04")
